@@ -55,5 +55,21 @@ Lemma map_parsers_pinned :
                  (s "primative.rs", map s ["parse_parenthesis"; "parse_basic_primatives"]%string)].
 Proof. reflexivity. Qed.
 
+(* DataItem::calculate of each item kind (compiler/*.rs): the operand kinds it names and the operations it mentions --
+   Model/Items.v calculate: number and percent take any operand through its underlying number (all four operations);
+   money: number, money, percent, duration; duration: + and - only; time: duration or time, + and -; date and
+   date-time: duration, + and -; unit quantity: number, quantity, percent *)
+Lemma calc_operands_pinned :
+  CALC_OPERANDS =
+  [(s "number", [], map s ["Add"; "Div"; "Mul"; "Sub"]%string);
+   (s "percent", [], map s ["Add"; "Div"; "Mul"; "Sub"]%string);
+   (s "money", map s ["NUMBER"; "MONEY"; "PERCENT"; "DURATION"]%string, map s ["Add"; "Div"; "Mul"; "Sub"]%string);
+   (s "duration", [], map s ["Add"; "Sub"]%string);
+   (s "time", map s ["DURATION"; "TIME"]%string, map s ["Add"; "Sub"]%string);
+   (s "date", map s ["DURATION"]%string, map s ["Add"; "Sub"]%string);
+   (s "date_time", map s ["DURATION"]%string, map s ["Add"; "Sub"]%string);
+   (s "dynamic_type", map s ["NUMBER"; "DYNAMIC_TYPE"; "PERCENT"]%string, map s ["Add"; "Div"; "Mul"; "Sub"]%string)].
+Proof. reflexivity. Qed.
+
 Print Assumptions pass_order_pinned.
 Print Assumptions rule_registry_pinned.
